@@ -73,6 +73,9 @@ def run(ctx):
     outs = {k: [] for k in ops}
     oracle_lines = []
     verdicts = []
+    probe_dir = tempfile.mkdtemp(prefix="verif_c16p_")
+    probe_file = pathlib.Path(probe_dir) / "probe.txt"
+    probe_file.write_bytes(b"x")
     for n in names:
         # -- check_archive_path
         try:
@@ -88,7 +91,8 @@ def run(ctx):
         try:
             p = py7zr.SevenZipFile._sanitize_archive_arcname(None, n)
             ps = "ok " + enc(p)
-            stored = pathlib.Path(p).as_posix()
+            # the name write()/writeall() really store: through the implementation's own member-record builder
+            stored = py7zr.SevenZipFile._make_file_info(probe_file, p, False)["filename"]
         except py7zr.exceptions.AbsolutePathError:
             ps, stored = "err", None
         ops["sanitize"].append("path.sanitize " + enc(n))
@@ -99,6 +103,14 @@ def run(ctx):
             if stored.startswith("/"):
                 ctx.fail("C16:stored_absolute", "write/writeall would store an absolute member name",
                          {"arcname": n, "sanitized": p, "stored": stored})
+        if vs == "1":
+            # the name writestr()/writef() really store for an accepted name
+            stored2 = py7zr.SevenZipFile._make_file_info_from_name(None, io.BytesIO(b""), 0, n)["filename"]
+            ops["stored"].append("path.stored " + enc(n))
+            outs["stored"].append(enc(stored2))
+            if stored2.startswith("/"):
+                ctx.fail("C16:stored_absolute", "writestr/writef accept the name and store an absolute member name",
+                         {"arcname": n, "stored": stored2})
         ops["canon"].append("path.canon " + enc(n))
         outs["canon"].append(enc(str(helpers.canonical_path(pathlib.Path(n)))))
         pp = pathlib.PurePosixPath(n)
@@ -114,6 +126,7 @@ def run(ctx):
             outs["out"].append(os_)
         nontrivial = ".." in n or n.startswith("/") or ":" in n
         ctx.case(key=n, nontrivial=nontrivial)
+    shutil.rmtree(probe_dir, ignore_errors=True)
     for k in ops:
         ctx.correspond("path." + k, ops[k], outs[k])
     # the property itself: implementation verdict == independent oracle (Lean Spec.nameStaysInside)
